@@ -20,7 +20,7 @@ for id in "$@"; do
     cp /tmp/rebase-$id.diff $d/patch.diff
     python3 - "$d/meta.json" <<'PY'
 import json,sys
-p=sys.argv[1]; m=json.load(open(p)); m["rebased"]=(m.get("rebased","")+"; re-created with fuzzy matching after fixes 55-57").strip("; "); json.dump(m,open(p,"w"),indent=1)
+p=sys.argv[1]; m=json.load(open(p)); m["rebased"]=(m.get("rebased","")+"; re-created with fuzzy matching after a later fix").strip("; "); json.dump(m,open(p,"w"),indent=1)
 PY
     echo "$id REBASED" )
   git -C /repo worktree remove --force $wt 2>/dev/null; rm -rf $wt
